@@ -111,3 +111,46 @@ Proof.
         unfold mk_result, fa. cbn [name seq]. rewrite !rev_append_rev, !app_nil_r. reflexivity.
       * destruct t; reflexivity.
 Qed.
+
+(* ---- reader.iter: read() until it fails -------------------------------------------------------- *)
+From Bio.Proofs Require FastaProofsB.
+
+Definition fi_state : Type := (list (imp_fastard_Fasta * Z) * go_stream)%type.
+Definition fi_body (fuel : nat) : fi_state -> res fi_state (go_stream * list (imp_fastard_Fasta * Z)) :=
+  (fun '(out__, rd__) => go_call (imp_fastard_reader_read fuel rd__) (fun '(rd__, (t__1, t__2)) => let fa := t__1 in let err := t__2 in (if (negb (Z.eqb err 0%Z)) then (if (negb (Z.eqb err 1%Z)) then (let out__ := out__ ++ [((Imp_fastard_Fasta [] []), err)] in let t__3 := true in Brk (out__, rd__)) else Brk (out__, rd__)) else (let out__ := out__ ++ [(fa, 0%Z)] in let t__4 := true in (if (negb t__4) then Ret (rd__, out__) else Next (out__, rd__)))))).
+
+Definition fa_item (t : term) (i : item fasta) : imp_fastard_Fasta * Z :=
+  match i with
+  | Rec r => (Imp_fastard_Fasta (name r) (seq r), 0)
+  | ErrItem => (fa_zero, term_code t)
+  end.
+
+Lemma fi_loop t fuel : forall mf fw inp out,
+  (length inp < mf)%nat -> (length inp + 1 < fw)%nat -> (length inp + 2 < fuel)%nat ->
+  go_while fw (fun _ => Ret true) (fi_body fuel) (out, Stream inp (term_code t) None)
+  = Next (out ++ map (fa_item t) (decode_fuel mf inp t), Stream [] (term_code t) None).
+Proof.
+  induction mf as [|mf IH]; intros fw inp out Hm Hw Hf; [lia|].
+  destruct fw as [|fw]; [lia|]. cbn [go_while decode_fuel].
+  unfold fi_body at 1. cbv beta iota.
+  rewrite (imp_fasta_read fuel inp t Hf).
+  destruct (read_one inp t) as [r rest| |] eqn:R; cbn [fr_read_result go_call]; cbv beta iota zeta.
+  - cbn [Z.eqb negb map fa_item]. pose proof (FastaProofsB.read_one_rest inp t r rest R) as Hr.
+    rewrite (IH fw rest) by lia. rewrite <- app_assoc. reflexivity.
+  - cbn [Z.eqb Pos.eqb negb map]. rewrite app_nil_r. destruct t; [reflexivity|].
+    (* RdEOF with a failing stream cannot happen: read_one gives RdErr *)
+    exfalso. unfold read_one in R. destruct (rd_loop SStart [] [] false inp) as [[[nm sq] any] [rest|]]; [discriminate|].
+    destruct (negb any); discriminate.
+  - cbn [Z.eqb Pos.eqb negb map fa_item]. destruct t; [|reflexivity].
+    exfalso. unfold read_one in R. destruct (rd_loop SStart [] [] false inp) as [[[nm sq] any] [rest|]]; [discriminate|].
+    destruct (negb any); discriminate.
+Qed.
+
+Theorem imp_fasta_iter fuel inp t : (length inp + 2 < fuel)%nat ->
+  imp_fastard_reader_iter fuel (Stream inp (term_code t) None)
+  = Ret (Stream [] (term_code t) None, map (fa_item t) (decode inp t)).
+Proof.
+  intros Hf. unfold imp_fastard_reader_iter, decode. cbv zeta.
+  change (go_while fuel _ _ ([], ?s)) with (go_while fuel (fun _ => Ret true) (fi_body fuel) ([], s)).
+  rewrite (fi_loop t fuel (S (length inp)) fuel inp []) by lia. reflexivity.
+Qed.
